@@ -150,6 +150,27 @@ def d3_no_silent_drop(ctx):
     ok = pa2.entails(pcr, allowed)
     ctx.chk.ob("D3", "after registration a datagram is not forwarded only on read error, empty read, or no selectable link", ok,
                "forward-free return under %s" % pa2.show(pcr, 6) + ("" if ok else " ; e.g. %s" % pa2.counterexample(pcr, allowed)), key="D3:skip-conditions")
+    # "no selectable link" must be the scheduler's own answer: nothing else may turn the decision into None
+    from . import route
+    bad = []
+    nd = 0
+    if dec is not None:
+        for d in pa.fa.defs.get(dec, []):
+            nd += 1
+            if d[2] == "call":
+                st = d[3]["f"].get("stable")
+                if st not in (route.SEL, route.PRE):
+                    bad.append("call %s" % (st or d[3]["f"].get("path")))
+            elif d[2] == "assign":
+                v = strip_old(pa.fa.val_rvalue(d[3], (d[0], d[1])))
+                if is_call(v, stable=route.SEL) or is_call(v, stable=route.PRE):
+                    continue
+                if not (v[0] == "agg" and v[1] == "adt" and v[2].endswith("::Some")):
+                    bad.append(show(v, fn.names)[:100])
+            else:
+                bad.append(d[2])
+    ctx.chk.ob("D3", "the routing decision is None only when the scheduler said so (every other definition is Some(..))", dec is not None and nd >= 2 and not bad,
+               "definitions that may be None: %s" % bad, key="D3:none-only-from-scheduler")
     # the routing decision tested for None is the one whose sources C04 checks
     ctx.chk.ob("D3", "the forwarded index is the routing decision", any(s.kind == "selector" for s in sources), "", key="D3:decision-is-scheduler")
 
